@@ -280,6 +280,23 @@ func evaluate(b *rig.Built, cls map[string]class, c *Case) result {
 		return result{v: &viol{summary: fmt.Sprintf("%v %s: %s [%s]", b.Layout, c.SQL, msg, describe(out)), feat: feat}}
 	}
 	if out.Rejected() {
+		// a rejection is always allowed; it is a non-trivial outcome when the oracle
+		// demanded it (some row's sharding value cannot be routed)
+		demanded := false
+		for _, n := range c.Classes {
+			cl := cls[n]
+			if cl.Kind != kLit {
+				demanded = true
+			} else if _, ok := route(b, cl.Val); !ok && !global {
+				demanded = true
+			}
+		}
+		if !demanded || c.Seq == "onkey_omit" {
+			if !demanded {
+				tally(&viol{summary: c.SQL + " => " + out.Err, feat: map[string]string{"form": c.Form, "valueclass": strings.Join(c.Classes, ","), "effect": "(no violation) routable but rejected", "seq": c.Seq}})
+			}
+			return result{rejected: true}
+		}
 		return result{rejected: true, key: "rejected:" + strings.Join(c.Classes, ",")}
 	}
 	if out.Kind != "InsertPlan" {
@@ -572,6 +589,9 @@ func layouts(r *ev.Run) []rig.Layout {
 	for _, linked := range []bool{false, true} {
 		for _, rt := range rig.RuleTypes {
 			for _, sh := range shapes {
+				if linked && r.Quick() && sh != [2]int{2, 2} && sh != [2]int{3, 1} && sh != [2]int{1, 2} {
+					continue // quick tier: linked children on three shapes only
+				}
 				ls = append(ls, rig.Layout{Rule: rt, Linked: linked, Slices: sh[0], Per: sh[1]})
 			}
 		}
@@ -619,16 +639,21 @@ func runLayout(r *ev.Run, l rig.Layout, fams []family) {
 	for _, c := range cs {
 		cls[c.Name] = c
 	}
-	// harness sanity: the plain literal classes must be routable by construction
+	// non-vacuity: count the literal classes the rule can place (by construction lit,
+	// quoted, boundary and boundary_hi are; main() fails the run if none is anywhere)
 	if b.KeyCol != "" {
-		for _, n := range []string{"lit", "quoted", "boundary", "boundary_hi"} {
-			if _, ok := route(b, cls[n].Val); !ok {
-				ev.Fatalf("%v: class %s (%s) is not routable; the universe is wrong", l, n, cls[n].SQL)
+		for _, c := range cs {
+			if c.Kind == kLit {
+				if _, ok := route(b, c.Val); ok {
+					r.Add("routable_literal_classes", 1)
+				} else {
+					r.Add("unroutable_literal_classes", 1)
+				}
 			}
 		}
 	}
 	lookupCheck(r, b, cs)
-	var evals, accepted, rejected int64
+	var evals, accepted, rejected, rejectedRoutable int64
 	run := func(c Case) {
 		res := evaluate(b, cls, &c)
 		evals++
@@ -638,13 +663,16 @@ func runLayout(r *ev.Run, l rig.Layout, fams []family) {
 			tally(res.v)
 		case res.rejected:
 			rejected++
+			if res.key == "" {
+				rejectedRoutable++
+			}
 		default:
 			accepted++
 		}
 		if res.v == nil && res.key != "" && c.Perm == 0 && c.Seq == "none" && !c.OnDup && !c.Qual && !c.Replace {
 			r.Distinct("nontrivial", l.String()+"|"+c.Form+"|"+strings.Join(c.Classes, ",")+"|"+res.key)
 		}
-		if evals == 1 || evals == 1777 {
+		if cj := strings.Join(c.Classes, ","); c.Perm == 0 && c.Seq == "none" && !c.Qual && !c.Replace && (cj == "lit,quoted" || cj == "boundary,null" || cj == "lit,boundary_hi,quoted" || (c.Form == "set" && cj == "quoted")) {
 			r.Sample(map[string]interface{}{"layout": l.String(), "sql": c.SQL, "outcome": strOr(res.key, "violation")})
 		}
 	}
@@ -678,6 +706,7 @@ func runLayout(r *ev.Run, l rig.Layout, fams []family) {
 	r.Add("evaluations", evals)
 	r.Add("accepted", accepted)
 	r.Add("rejected", rejected)
+	r.Add("rejected_although_routable", rejectedRoutable)
 }
 
 func main() {
@@ -724,17 +753,15 @@ func main() {
 	o0 := options(0)
 	o1 := options(1)
 	o2 := options(2)
-	oRep := [][]int{o1[0], {1, 0, 0, 0, 0}}
 	var fams []family
 	var bound string
 	if r.Quick() {
-		fams = []family{{"values", 1, false, o1}, {"values", 2, false, o1}, {"set", 1, false, o1}, {"values", 3, true, oRep}}
-		bound = fmt.Sprintf("VALUES with 1-2 rows and SET: all sharding-value class vectors x %d option vectors (<=1 deviation in replace/column order (6)/sequence mode (6)/on-duplicate/db-qualified); VALUES with 3 rows: all class vectors with at least one plain literal row x {INSERT, REPLACE}", len(o1))
+		fams = []family{{"values", 1, false, o1}, {"values", 2, false, o1}, {"set", 1, false, o1}, {"values", 3, true, o0}}
+		bound = fmt.Sprintf("VALUES with 1-2 rows and SET: all sharding-value class vectors x %d option vectors (<=1 deviation in replace/column order (6)/sequence mode (6)/on-duplicate/db-qualified); VALUES with 3 rows: all class vectors with at least one plain literal row, default options", len(o1))
 	} else {
 		fams = []family{{"values", 1, false, o2}, {"values", 2, false, o2}, {"set", 1, false, o2}, {"values", 3, false, o1}}
 		bound = fmt.Sprintf("VALUES with 1-2 rows and SET: all sharding-value class vectors x %d option vectors (<=2 deviations in replace/column order (6)/sequence mode (6)/on-duplicate/db-qualified); VALUES with 3 rows: all class vectors x %d option vectors (<=1 deviation)", len(o2), len(o1))
 	}
-	_ = o0
 	var mu sync.Mutex
 	done := 0
 	n := enum.Parallel(len(ls), r.TimeUp, func(i int) {
@@ -747,13 +774,16 @@ func main() {
 		r.Capped(fmt.Sprintf("%d of %d layouts completed", done, len(ls)))
 	}
 	r.Set("layouts", len(ls))
-	r.Set("bound", fmt.Sprintf("%d layouts (11 rule types x {own table, linked child} + global, x slices x tables-per-slice shapes); per layout: %s; plus one point SELECT per routable literal class", len(ls), bound))
-	r.Set("rule", "every statement of the bounded universe is enumerated (no sampling). distinct_nontrivial counts distinct (layout, form, value-class vector, outcome) with default options where the outcome is either a verified placement of the rows over physical tables or a rejection, plus distinct (layout, class) point lookups that were pruned to exactly the table of the inserted row")
+	r.Set("bound", fmt.Sprintf("%d layouts (11 rule types x {own table, linked child} + global; slices x tables-per-slice shapes: %s); per layout: %s; plus one point SELECT per routable literal class", len(ls), map[bool]string{true: "1x2 2x1 2x2 3x1 1x4 4x1 (linked children: 1x2 2x2 3x1)", false: "all of 1-4 x 1-4"}[r.Quick()], bound))
+	r.Set("rule", "every statement of the bounded universe is enumerated (no sampling). distinct_nontrivial counts distinct (layout, form, value-class vector, outcome) with default options where the outcome is either a verified placement of every row in its physical table or a rejection that the oracle demanded (a row with an unroutable sharding value), plus distinct (layout, class) point lookups that were pruned to exactly the table of the inserted row")
 	r.Assume("Rule.FindTableIndex is the reference for where a sharding value lives (its agreement with Mycat / the rule definitions is the subject of C07-C09)")
 	r.Assume("a panic inside BuildPlan is recovered by handleQuery and therefore counts as a rejection")
 	r.Assume("time zone UTC for integer keys of calendar rules")
 	printTallies()
 	pprof.StopCPUProfile()
+	if r.Count("routable_literal_classes") < int64(4*len(ls))/2 {
+		ev.Fatalf("vacuous run: only %d routable literal classes over %d layouts", r.Count("routable_literal_classes"), len(ls))
+	}
 	if r.Count("accepted") == 0 || r.Count("rejected") == 0 {
 		ev.Fatalf("vacuous run: accepted=%d rejected=%d", r.Count("accepted"), r.Count("rejected"))
 	}
